@@ -35,6 +35,7 @@ def gen_case(rng, i):
         tot = 0
         for k in range(d):
             e_ = rng.randint(-6, 6); tot += e_; cores[k] = cores[k] * 10.0 ** e_
+        fam = "scaled-tiny" if tot <= -9 else ("scaled-huge" if tot >= 9 else "scaled")        # (labels for the family coverage of the run)
         if dtype in (torch.float32, torch.complex64) and abs(tot) > 12:
             # single precision: keep the SQUARED norm inside the range of the dtype (1e38): beyond it norm() itself overflows / underflows and the
             # relative threshold eps*||.|| is inf or 0 - outside the arithmetic, not a rounding question (DESIGN section 11)
@@ -132,8 +133,17 @@ def run(tier, seed, replay=None):
     n_identity = 0
     try:
         D.rank_chop = spy
-        for i in range(n):
-            cores, eps, rmax, dtype, is_ttm, fam = gen_case(rng, i)
+        # every (family, operator?, precision) of the generator is represented in EVERY run, whatever the seed (second stream for what the main one missed)
+        all_cases = [gen_case(rng, i) for i in range(n)]
+        fkey = lambda c_: (c_[5], c_[4], c_[3] in (torch.float32, torch.complex64))
+        have_f = {}
+        for c_ in all_cases: have_f[fkey(c_)] = have_f.get(fkey(c_), 0) + 1
+        rng_cov = random.Random(seed * 7919 + 13)
+        for i_ in range(8000):
+            if len(all_cases) >= n + 60: break
+            c_ = gen_case(rng_cov, n + i_)
+            if have_f.get(fkey(c_), 0) < 1: all_cases.append(c_); have_f[fkey(c_)] = 1
+        for i, (cores, eps, rmax, dtype, is_ttm, fam) in enumerate(all_cases):
             if i in (4, 8, 12):
                 # engineered: operators with many more rows than columns (x.to_ttm() is the extreme case) or the transpose, whose bond ranks exceed the
                 # number of columns (rows): the default rmax must not bind
